@@ -171,6 +171,11 @@ PROPS["C18"] = dict(
           expected_verified=7,
           witness=dict(cmd="cp /repo/Cargo.lock /verif/witness/Cargo.lock && CARGO_TARGET_DIR=/verif/build/witness "
                            "cargo run --offline -q --manifest-path /verif/witness/Cargo.toml --bin c18_encode 2>&1 | tail -3")),
+        V("C18.frame_pixel_data", "c18_frame_pixel_data.vrs",
+          "default PixelDataObject::frame_pixel_data, encapsulated arms: with one fragment per frame the frame's data is its fragment; "
+          "otherwise it is the concatenation, in order, of exactly the fragments whose item offset (sum of 8 + length of the earlier "
+          "fragments) lies in [table[frame], table[frame+1]) (to the end for the last frame), for any number of fragments and frames",
+          expected_verified=6),
         K("C18.fragments_new", "ext", _single,
           "Fragments::new + From<Vec<Fragments>> (single frame): every fragment even and of equal size, fragments "
           "concatenate to the data followed by < 1 fragment of zero padding, offset table [0]",
@@ -191,9 +196,11 @@ PROPS["C18"] = dict(
         "precondition: dst and offset_table are empty on entry (both call sites in pixeldata/src/transcode.rs pass new vectors; not verified)",
         "precondition: frames * (max frame length + 9) <= 2^32-1 (the 32-bit basic offset table cannot express more)",
         "&dyn PixelDataObject rewritten to &impl PixelDataObject in the verified text",
+        "frame_pixel_data: preconditions — the encapsulated data fits 32-bit offsets and the basic offset table is strictly increasing around the "
+        "requested frame and within the data; Cow<[T]> modelled by its content; the native (None) arm is cut and replaced by an abstract callee",
     ],
     uncovered=["Fragments::new for data longer than the bound (the f32 ceil for |data| > 2^24 is outside any bound CBMC reaches)",
-               "PixelDataObject::frame_pixel_data", "ENCAPSULATED_PIXEL_DATA_VALUE_TOTAL_LENGTH in transcode.rs (inline in a whole-object function)",
+               "frame_pixel_data for native pixel data (cut: C21)", "ENCAPSULATED_PIXEL_DATA_VALUE_TOTAL_LENGTH in transcode.rs (inline in a whole-object function)",
                "pixeldata/src/encapsulation.rs helpers"],
 )
 
